@@ -468,6 +468,14 @@ func cmdSmfGen(args []string) {
 				hdr = append(hdr, []byte("MTrk")...)
 				hdr = append(hdr, be32(r.Intn(100))...)
 				rec.Bytes, rec.Src = append(hdr, payload(r, r.Intn(200), false)...), "header+random"
+			case k < 5 && i%40 == 7: // more track chunks than a 15-bit counter holds (the header field is 16 bit unsigned)
+				nt := []int{32767, 32768, 32769, 40000, 65535}[r.Intn(5)]
+				b := append([]byte("MThd"), 0, 0, 0, 6, 0, 1, byte(nt>>8), byte(nt), 0, 96)
+				chunk := append(append([]byte("MTrk"), 0, 0, 0, 4), 0x00, 0xFF, 0x2F, 0x00)
+				for t := 0; t < nt; t++ {
+					b = append(b, chunk...)
+				}
+				rec.Bytes, rec.Src = b, "manytracks"
 			case k < 6: // well-formed structure, but fixed-length meta types with other (self-consistent) lengths
 				oddMeta = true
 				rec.Bytes, rec.Src = genValidFile(r, false, feat), "oddmeta"
